@@ -426,7 +426,7 @@ class Sim(object):
         e, d = inst.engine, inst.dispatcher
         bm = {}
         for arn, m in e.branch_metadata.items():
-            bm[arn] = {k: {"results": copy.deepcopy(v["results"]), "ids": list(v["ids"]), "state": list(v["state"]),
+            bm[arn] = {k: {"results": [x if isinstance(x, (dict, list, str, int, float, bool, type(None))) else repr(x) for x in v["results"]], "ids": list(v["ids"]), "state": list(v["state"]),
                            "terminated": v.get("terminated")} for k, v in m.results.items()}
         return {"unacked": sorted(str(k) for k in d.unacknowledged_messages),
                 "branch_metadata": bm,
